@@ -568,13 +568,14 @@ PROPS["C17"] = dict(
     mc=[
         dict(module="MC_NameResolve", cfg="MC_NameResolve_quick.cfg", tiers=("quick",), workers=8),
         dict(module="MC_NameResolve", cfg="MC_NameResolve_thorough.cfg", tiers=("thorough",), workers=14, timeout=3400, heap="24g"),
+        dict(module="MC_NameResolve", cfg="MC_NameResolve_deep_thorough.cfg", tiers=("thorough",), workers=14, timeout=3400, heap="24g"),
     ],
     trace="Trace_C17",
-    drive=dict(quick=dict(n=400, size=3), thorough=dict(n=4000, size=6)),
+    drive=dict(quick=dict(n=160, size=3), thorough=dict(n=4000, size=6)),
     nontrivial=lambda e: len(e["args"]["toks"]) >= 2,
     corrupt=_corrupt_c17,
     corruptible=lambda e: True,
-    rule="cases: every program of MC_NameResolve (<= MaxFrags fragments, a token on every fragment start) x 8 names (identifiers incl. non-ASCII/astral/joiner, two non-identifiers), queried at every token, one column right of the last and on the next line; seeded multi-line programs (several functions per line, comments with astral characters, names pointing at the blank before the identifier, tokens past the end of a line or on a missing line), 6 queries each, and the 128-budget family; distinct = distinct (op, args); non-trivial = at least 2 tokens",
+    rule="cases: every program of MC_NameResolve (<= MaxFrags fragments, a token on every fragment start) x 9..11 names (identifiers of every ECMAScript class incl. non-ASCII/astral/joiner/Other_ID_Start/mark, non-identifiers), queried at every token, one column right of the last and on the next line; seeded multi-line programs (several functions per line, comments with astral characters, names pointing at the blank before the identifier, tokens past the end of a line or on a missing line), 6 queries each, and the 128-budget family; distinct = distinct (op, args); non-trivial = at least 2 tokens",
     assumptions=COMMON_ASSUMPTIONS,
 )
 
